@@ -162,8 +162,27 @@ def oracle(codes, tr, reals=None):
                                                       2: 'raised ValueError'}.get(seen, seen))))
             if b == 1 and seen != 2:
                 fails.append(('wrap_verbose(raise)', '%s: the function\'s own error was not what the caller saw (%s)' % (what, seen)))
+        if kind == 0:
+            # set_up(level=..): the console comes up at the requested level, or at the documented default when none is given -
+            # whatever happened before (a verbosity override is temporary: it may not colour a later set_up)
+            want = a if a else _default_level()
+            if lv != want:
+                fails.append(('set_up', 'set_up(%s) after the history %s left the console at %s instead of %s'
+                              % ('level=%r' % NAMES[a] if a else 'no level', codes[:n], lv, want)))
+        if kind == 1 and prev != -1 and lv != a:
+            fails.append(('set_level', 'set_level(%r) left the console at %s' % (NAMES[a], lv)))
         prev = lv
     return fails
+
+
+_DEF = {}
+
+
+def _default_level():
+    if 'v' not in _DEF:
+        tr, reals = forked([[0, 0, 0]], os.path.join(common.VERIF, '.work'))
+        _DEF['v'] = reals[0] if reals else tr[0]
+    return _DEF['v']
 
 
 _W = {}
